@@ -348,6 +348,14 @@ def isolation_run(x_outcome, x_when, x_peer, x_slow, x_acked=True):
         w.dispose()
 
 
+def iso_normalise(base, view, peer, acked):
+    if not acked and tuple(peer) == P1 and view.get("01") in ([], base["01"]):
+        # don't-care (C14): the neighbour's own separate CON response had to wait behind X's unacknowledged one to the
+        # same peer and is dropped with it when that exchange is given up - or it made it out before / afterwards
+        return dict(view, **{"01": base["01"]})
+    return view
+
+
 def job(arg):
     kind, items = arg
     res = Result()
@@ -380,10 +388,7 @@ def job(arg):
             res.evaluations += 1
             res.traces += 1
             case = {"isolation": [o, when, list(peer), slow, acked]}
-            if not acked and peer == P1 and view.get("01") in ([], base["01"]):
-                # don't-care (C14): the neighbour's own separate CON response had to wait behind X's unacknowledged one to the
-                # same peer and is dropped with it when that exchange is given up - or it made it out before / afterwards
-                view = dict(view, **{"01": base["01"]})
+            view = iso_normalise(base, view, peer, acked)
             if view != base:
                 res.violate(Violation("failure-affects-neighbour", base, view, "pipe.py", case, key="neighbour"))
             if excs:
@@ -459,6 +464,7 @@ def replay(case, scenario, seed):
         acked = case["isolation"][4] if len(case["isolation"]) > 4 else True
         base, _ = isolation_run(None, 0, P1, False)
         view, excs = isolation_run(o, when, tuple(peer), slow, acked)
+        view = iso_normalise(base, view, peer, acked)
         print("     baseline:", base)
         print("     with X:  ", view, excs)
         return [Violation("failure-affects-neighbour", base, view, "pipe.py", case)] if view != base or excs else []
